@@ -1,4 +1,5 @@
 import TmVerif.Proofs.DiffText
+import TmVerif.Proofs.DiffMyersTotal
 /-!
 C27 — Line diffs are correct and minimal (property theorems only).
 
@@ -45,10 +46,43 @@ theorem C27_script_minimal_partial (raw : List α → List α → Option (Nat ×
     scriptCost cs + 2 * dpLcs a b = a.length + b.length := by
   rw [dpLcs_eq]; exact lcs_minimal raw hraw a b cs h
 
-/-- The full statement (not proved): the mirrored Myers search always returns and is minimal. -/
-def C27_script_minimal_full : Prop :=
-  ∀ (β : Type) [DecidableEq β] (a b : List β),
-    ∃ cs, lcs a b = some cs ∧ scriptCost cs + 2 * dpLcs a b = a.length + b.length
+/-- The mirrored bidirectional Myers search (`middle` up to its re-check loop) returns, for ALL
+inputs, a split point on a shortest edit path: the hypothesis of `C27_script_minimal_partial`
+holds for the real oracle. (Proof: furthest-reaching invariant of the forward and of the reverse
+rounds on the unbounded edit graph, soundness and completeness of the overlap test with the
+`limit`/`start` trimming of the Go code, termination within `max+1` rounds.) -/
+theorem C27_middle_optimal : OptimalSplit (middleRaw (α := α)) := optimalSplit_middleRaw
+
+/-- Minimality of the mirror of `lcs`, all inputs: whenever it returns a script, the script's cost
+is exactly `|a| + |b| - 2·dpLcs a b`, which by `C27_cost_lower_bound` no edit list can beat. -/
+theorem C27_script_minimal (a b : List α) (cs : List Chunk) (h : lcs a b = some cs) :
+    scriptCost cs + 2 * dpLcs a b = a.length + b.length :=
+  C27_script_minimal_partial middleRaw C27_middle_optimal a b cs h
+
+/-- The mirror of `lcs` returns for every input: the `log.Fatal` calls of `trace` and `middle`, an
+out-of-range or corner split point, a negative coordinate and the fuel of the model are never
+reached (the search finds its split within `max+1` rounds; the sub-problems of `trace` again have
+no common first or last element and are strictly smaller). -/
+theorem C27_lcs_total (a b : List α) : ∃ cs, lcs a b = some cs := lcs_total a b
+
+/-- The full statement: for every pair of inputs the mirror of `lcs` returns a script, the script
+turns `a` into `b`, and its cost is the minimum `|a| + |b| - 2·dpLcs a b`. -/
+theorem C27_script_minimal_full :
+    ∀ (β : Type) [DecidableEq β] (a b : List β),
+      ∃ cs, lcs a b = some cs ∧ applyEdits (toEdits cs b) a = some b ∧
+        scriptCost cs + 2 * dpLcs a b = a.length + b.length := by
+  intro β _ a b
+  obtain ⟨cs, h⟩ := lcs_total a b
+  exact ⟨cs, h, (C27_script_transforms middleRaw a b cs h).1, C27_script_minimal a b cs h⟩
+
+/-- `LineDiff` (the mirror) returns for every pair of texts. -/
+theorem C27_linediff_total (left right : List Char) : ∃ t, lineDiff left right = some t := by
+  unfold lineDiff lineDiffHunks
+  split
+  · exact ⟨_, rfl⟩
+  · obtain ⟨cs, h⟩ := lcs_total (splitLines left) (splitLines right)
+    simp only [h]
+    exact ⟨_, rfl⟩
 
 -- non-vacuity of the hypothesis
 example : OptimalSplit (fun (_ _ : List Nat) => none) := by intro a b ai bi mx h; cases h
